@@ -94,6 +94,23 @@ struct RejTable {
             add("findAllGeodesics", 2, false, P_RANGE, [](G &g, unsigned a, unsigned b, bool, const L &) { (void)alg::findAllGeodesics(g, a, b); });
             add("findGeodesicsFromVertex", 1, false, P_RANGE, [](G &g, unsigned a, unsigned, bool, const L &) { (void)alg::findGeodesicsFromVertex(g, a); });
             add("findAllGeodesicsFromVertex", 1, false, P_RANGE, [](G &g, unsigned a, unsigned, bool, const L &) { (void)alg::findAllGeodesicsFromVertex(g, a); });
+            // path reconstruction from the result of a valid search (source a, destination b; at least one of them is bad)
+            add("findPathToVertexFromPredecessors", 2, false, P_RANGE, [](G &g, unsigned a, unsigned b, bool, const L &) {
+                alg::Predecessors pred;
+                if (g.getSize() > 0) pred = alg::findVertexPredecessors(g, a < g.getSize() ? a : 0);
+                (void)alg::findPathToVertexFromPredecessors(g, a, b, pred);
+            });
+            add("findMultiplePathsToVertexFromPredecessors", 2, false, P_RANGE, [](G &g, unsigned a, unsigned b, bool, const L &) {
+                alg::MultiplePredecessors pred;
+                if (g.getSize() > 0) pred = alg::findAllVertexPredecessors(g, a < g.getSize() ? a : 0);
+                (void)alg::findMultiplePathsToVertexFromPredecessors(g, a, b, pred);
+            });
+            add("findPathToVertexFromPredecessors(destination)", 1, false, P_RANGE, [](G &g, unsigned a, unsigned, bool, const L &) {
+                alg::Predecessors pred;
+                if (g.getSize() > 0) pred = alg::findVertexPredecessors(g, 0);
+                else pred.first.push_back(0); // a table that names a source, so that the call gets as far as the destination
+                (void)alg::findPathToVertexFromPredecessors(g, a, pred);
+            });
         }
         if constexpr (kind == MULTI) {
             add("addEdge", 2, true, P_RANGE, [](G &g, unsigned a, unsigned b, bool f, const L &) { g.addEdge(a, b, f); });
